@@ -58,6 +58,11 @@ LEVEL_TEXT += (
     "a composite element among the components of ElementComposite / "
     "ElementVector is flattened or refused (gbasis takes field [0] of "
     "each component).")
+LEVEL_TEXT += (
+    " Added after review R7: the refusal tests of ElementComposite.__init__ "
+    "and ElementVector.__init__ are interpreted on chains of one to three "
+    "ElementDG wrappers around a two-field composite (must refuse) and on "
+    "plain elements, wrapped or not (must accept).")
 LEVEL_NOTE = (
     "Trusted: numpy reshape/moveaxis/flatten/split/cumsum semantics. The "
     "@-composite (equal_dofnum) branch of CompositeBasis is outside the "
